@@ -38,21 +38,39 @@ func c01Threads(c *h.Ctx) {
 		c.Inconclusive("threads: route registration got no 200")
 		return
 	}
+	// a default route as well: an Interest named `/` with CanBePrefix is a legal request for anything
+	// a second upstream: a local producer application (producers attach no PIT tokens) holding /u
+	prod := d.newFace(true, 4)
+	rootU, _ := enc.NameFromStr("/u")
+	cpu := c17Params(&mgmt.ControlArgs{Name: rootU, FaceId: u64p(prod.id)})
+	if resp := d.command(d.app, "/localhost/nfd", "rib", "register", &cpu, 15*time.Second); resp == nil || resp.StatusCode != 200 {
+		c.Inconclusive("threads: /u route registration got no 200")
+		return
+	}
+	defUp := []*c17Face{d.peer, prod}[r.Intn(2)]
+	// (cost 10: the route is inherited by /t and /u, whose own upstream must stay the cheapest next hop)
+	cpr := c17Params(&mgmt.ControlArgs{Name: enc.Name{}, FaceId: u64p(defUp.id), Cost: u64p(10)})
+	if resp := d.command(d.app, "/localhost/nfd", "rib", "register", &cpr, 15*time.Second); resp == nil || resp.StatusCode != 200 {
+		c.Inconclusive("threads: default route registration got no 200")
+		return
+	}
 	strat := []string{"best-route", "multicast"}[r.Intn(2)]
 	sn, _ := enc.NameFromStr(fwStrategyNames[strat])
-	cps := c17Params(&mgmt.ControlArgs{Name: root, Strategy: &mgmt.Strategy{Name: sn}})
-	if resp := d.command(d.app, "/localhost/nfd", "strategy-choice", "set", &cps, 15*time.Second); resp == nil || resp.StatusCode != 200 {
-		c.Inconclusive("threads: strategy-choice/set got no 200")
-		return
+	for _, rt := range []enc.Name{root, rootU} {
+		cps := c17Params(&mgmt.ControlArgs{Name: rt, Strategy: &mgmt.Strategy{Name: sn}})
+		if resp := d.command(d.app, "/localhost/nfd", "strategy-choice", "set", &cps, 15*time.Second); resp == nil || resp.StatusCode != 200 {
+			c.Inconclusive("threads: strategy-choice/set got no 200")
+			return
+		}
 	}
 	type seen struct {
 		token []byte
 		ok    bool
 	}
 	// waits until the peer has been handed an Interest for name; returns the PIT token attached
-	peerSees := func(name enc.Name) seen {
+	peerSees := func(up *c17Face, name enc.Name) seen {
 		for dl := time.Now().Add(15 * time.Second); time.Now().Before(dl); time.Sleep(200 * time.Microsecond) {
-			for _, fr := range d.peer.tr.TakeFrames() {
+			for _, fr := range up.tr.TakeFrames() {
 				p, _, err := spec.ReadPacket(enc.NewBufferReader(fr))
 				if err != nil {
 					continue
@@ -98,19 +116,56 @@ func c01Threads(c *h.Ctx) {
 	for k := 0; k < rounds; k++ {
 		id := fmt.Sprintf("threads/r%d", k)
 		c.Eval(1)
-		name, _ := enc.NameFromStr(fmt.Sprintf("/t/n%d/%c", k, 'a'+rune(r.Intn(3))))
-		thread := fwfw.HashNameToFwThread(name)
+		up, upName := d.peer, "t"
+		if r.Intn(2) == 0 {
+			up, upName = prod, "u"
+		}
+		name, _ := enc.NameFromStr(fmt.Sprintf("/%s/n%d/%c", upName, k, 'a'+rune(r.Intn(3))))
+		// one round in three asks with a proper prefix of the Data name and CanBePrefix (0, 1 or 2
+		// components: `/`, `/t`, `/t/n<k>`): the Interest then waits in the thread its own name hashes
+		// to, which need not be the thread the Data's full name hashes to
+		iname, cbp, plen := name, false, -1
+		steered := false
+		if r.Intn(3) == 0 {
+			plen = r.Intn(3)
+			iname, cbp = name[:plen], true
+			if plen == 0 {
+				// `/` is routed to the face holding the default route; that face answers, with a Data
+				// name none of whose non-empty prefixes hashes to the thread the empty name hashes to
+				// (two times in three; otherwise any name)
+				up = defUp
+				for j := 0; j < 400; j++ {
+					name, _ = enc.NameFromStr(fmt.Sprintf("/z%dx%d/%c", k, j, 'a'+rune(r.Intn(3))))
+					ph := name.PrefixHash()
+					other := true
+					for i := 1; i < len(ph); i++ {
+						other = other && ph[i]%uint64(len(fwfw.Threads)) != ph[0]%uint64(len(fwfw.Threads))
+					}
+					if other || j%3 == 2 {
+						steered = other
+						break
+					}
+				}
+			}
+			if plen < 2 {
+				time.Sleep(150 * time.Millisecond) // the same Interest name as in an earlier round: let the satisfied entry be reaped first
+			}
+		}
+		thread := fwfw.HashNameToFwThread(iname)
 		both := r.Intn(3) == 0
 		echo := r.Intn(2) == 0
-		d.log = append(d.log, fmt.Sprintf("%s: Interest %s (forwarding thread %d) from face %d%s; upstream Data %s", id, name, thread, d.app.id, map[bool]string{true: fmt.Sprintf(" and face %d", d.app2.id), false: ""}[both], map[bool]string{true: "echoes the PIT token", false: "carries no token"}[echo]))
-		d.send(d.app, name, false)
-		sv := peerSees(name)
+		if steered && k%3 != 0 {
+			echo = false // the interesting combination: only the thread of the empty name holds the Interest, and no token names it
+		}
+		d.log = append(d.log, fmt.Sprintf("%s: Interest %s (CanBePrefix %v, forwarding thread %d) from face %d%s; upstream face %d (local: %v) answers with Data %s, which %s", id, iname, cbp, thread, d.app.id, map[bool]string{true: fmt.Sprintf(" and face %d", d.app2.id), false: ""}[both], up.id, up.local, name, map[bool]string{true: "echoes the PIT token", false: "carries no token"}[echo]))
+		d.send(d.app, iname, cbp)
+		sv := peerSees(up, iname)
 		if !sv.ok {
-			d.fail("C01:interest-not-forwarded:threads", id, fmt.Sprintf("Interest %s from a local consumer never reached the upstream face that holds the route (thread %d, %s)", name, thread, strat), nil)
+			d.fail("C01:interest-not-forwarded:threads", id, fmt.Sprintf("Interest %s from a local consumer never reached the upstream face that holds the route (thread %d, %s)", iname, thread, strat), nil)
 			return
 		}
 		if both {
-			d.send(d.app2, name, false) // aggregated into the same entry (different nonce, inside the suppression interval)
+			d.send(d.app2, iname, cbp) // aggregated into the same entry (different nonce, inside the suppression interval)
 			time.Sleep(2 * time.Millisecond)
 		}
 		fresh := time.Minute
@@ -123,7 +178,7 @@ func c01Threads(c *h.Ctx) {
 		if echo && sv.token != nil {
 			frame = tlvwalk.TLV(0x64, append(tlvwalk.TLV(0x62, sv.token), tlvwalk.TLV(0x50, wire)...))
 		}
-		face.VerifRecv(d.peer.ls, frame)
+		face.VerifRecv(up.ls, frame)
 		var k1, k2 [][]byte
 		want2 := 0
 		if both {
@@ -139,9 +194,19 @@ func c01Threads(c *h.Ctx) {
 		time.Sleep(3 * time.Millisecond)
 		got1, got2 = count(d.app, name, &k1), count(d.app2, name, &k2)
 		c.Count("thread_rounds", 1)
-		c.Distinct(fmt.Sprintf("threads|thread=%d|echo=%v|two-consumers=%v|%s", thread, echo, both, strat))
+		c.Distinct(fmt.Sprintf("threads|thread=%d|echo=%v|two-consumers=%v|%s|prefix-components=%d|upstream-local=%v", thread, echo, both, strat, plen, up.local))
+		if plen >= 0 {
+			c.Count("thread_prefix_rounds", 1)
+		}
+		if steered && !(echo && sv.token != nil) {
+			c.Count("thread_rounds_empty_name_interest_alone_on_its_thread_tokenless_data", 1)
+		}
 		if got1 != 1 || got2 != want2 {
-			d.fail("C01:pending-face-missed:threads", id, fmt.Sprintf("Data %s (PIT token echoed: %v) arrived from upstream while face %d%s held a pending Interest for it on forwarding thread %d: face %d received %d copies, face %d received %d (expected 1 and %d)", name, echo && sv.token != nil, d.app.id, map[bool]string{true: fmt.Sprintf(" and face %d", d.app2.id), false: ""}[both], thread, d.app.id, got1, d.app2.id, got2, want2), map[string]any{"strategy": strat})
+			key := "C01:pending-face-missed:threads"
+			if plen >= 0 {
+				key = fmt.Sprintf("C01:pending-face-missed:threads:prefix-interest-%d-components:upstream-local=%v", plen, up.local)
+			}
+			d.fail(key, id, fmt.Sprintf("Data %s (PIT token echoed: %v) arrived from the upstream face (local: "+fmt.Sprint(up.local)+") while face %d%s held a pending Interest "+iname.String()+" (CanBePrefix %v) it satisfies on forwarding thread %d: face %d received %d copies, face %d received %d (expected 1 and %d)", name, echo && sv.token != nil, d.app.id, map[bool]string{true: fmt.Sprintf(" and face %d", d.app2.id), false: ""}[both], cbp, thread, d.app.id, got1, d.app2.id, got2, want2), map[string]any{"strategy": strat})
 			return
 		}
 	}
